@@ -72,45 +72,52 @@ Section GSweep.
     exists add, L' = L ++ add /\
       (forall k v, In (k, v) add -> In k inner /\ v = val o /\ test o k = true) /\
       (NoDup (map fst L) -> NoDup (map fst L')) /\
-      (forall k, In k inner -> test o k = true -> In k (map fst L')).
+      (forall k, In k inner -> test o k = true -> In k (map fst L')) /\
+      (forall k, In k inner -> ~ In k (map fst L') -> avail o k = true).
   Proof.
     induction inner as [|k t IH]; intros L L' H; simpl in H.
-    - injection H as <-. exists []. rewrite app_nil_r. split; [reflexivity|]. split; [intros ? ? []|]. split; [auto|intros ? []].
+    - injection H as <-. exists []. rewrite app_nil_r. split; [reflexivity|]. split; [intros ? ? []|]. split; [auto|]. split; intros ? [].
     - destruct (dmem L k) eqn:Em.
-      + destruct (IH L L' H) as (add & E & A & N & Cl). exists add. split; [exact E|]. split; [|split; [exact N|]].
+      + destruct (IH L L' H) as (add & E & A & N & Cl & Av). exists add. split; [exact E|]. split; [|split; [exact N|split]].
         * intros k0 v0 H0. destruct (A k0 v0 H0) as (H1 & H2 & H3). split; [right; exact H1|]. split; assumption.
         * intros k0 [<-|H0] Ht; [|apply Cl; assumption]. subst L'. rewrite map_app. apply in_or_app. left. apply dmem_keys, Em.
+        * intros k0 [<-|H0] Hn; [|apply Av; assumption]. exfalso. apply Hn. subst L'. rewrite map_app. apply in_or_app. left. apply dmem_keys, Em.
       + destruct (avail o k) eqn:Ea; [|rewrite ginner_none in H; discriminate].
         destruct (test o k) eqn:Et.
-        * destruct (IH _ L' H) as (add & E & A & N & Cl). exists ((k, val o) :: add).
-          split; [rewrite E, <- app_assoc; reflexivity|]. split; [|split].
+        * destruct (IH _ L' H) as (add & E & A & N & Cl & Av). exists ((k, val o) :: add).
+          split; [rewrite E, <- app_assoc; reflexivity|]. split; [|split; [|split]].
           -- intros k0 v0 [H0|H0]; [injection H0 as <- <-; split; [left; reflexivity|split; [reflexivity|exact Et]]|].
              destruct (A k0 v0 H0) as (H1 & H2 & H3). split; [right; exact H1|]. split; assumption.
           -- intros Hnd. apply N. apply nodup_app_key; [exact Hnd|]. intros Hi. apply dmem_keys in Hi. congruence.
           -- intros k0 [<-|H0] Ht; [|apply Cl; assumption]. subst L'. rewrite !map_app. apply in_or_app. left. apply in_or_app. right. left. reflexivity.
-        * destruct (IH L L' H) as (add & E & A & N & Cl). exists add. split; [exact E|]. split; [|split; [exact N|]].
+          -- intros k0 [<-|H0] Hn; [exact Ea|apply Av; assumption].
+        * destruct (IH L L' H) as (add & E & A & N & Cl & Av). exists add. split; [exact E|]. split; [|split; [exact N|split]].
           -- intros k0 v0 H0. destruct (A k0 v0 H0) as (H1 & H2 & H3). split; [right; exact H1|]. split; assumption.
           -- intros k0 [<-|H0] Ht; [congruence|apply Cl; assumption].
+          -- intros k0 [<-|H0] Hn; [exact Ea|apply Av; assumption].
   Qed.
 
   Lemma gsweep_spec inner : forall outer L L', gsweep outer inner (Some L) = Some L' ->
     exists add, L' = L ++ add /\
       (forall k v, In (k, v) add -> In k inner /\ exists o, In o outer /\ v = val o /\ test o k = true) /\
       (NoDup (map fst L) -> NoDup (map fst L')) /\
-      (forall o k, In o outer -> In k inner -> test o k = true -> In k (map fst L')).
+      (forall o k, In o outer -> In k inner -> test o k = true -> In k (map fst L')) /\
+      (forall o k, In o outer -> In k inner -> ~ In k (map fst L') -> avail o k = true).
   Proof.
     unfold gsweep. induction outer as [|o t IH]; intros L L' H; simpl in H.
-    - injection H as <-. exists []. rewrite app_nil_r. split; [reflexivity|]. split; [intros ? ? []|]. split; [auto|intros ? ? []].
+    - injection H as <-. exists []. rewrite app_nil_r. split; [reflexivity|]. split; [intros ? ? []|]. split; [auto|]. split; intros ? ? [].
     - destruct (fold_left (gstep o) inner (Some L)) as [L1|] eqn:E1; [|pose proof (gsweep_none t inner) as Hn; unfold gsweep in Hn; rewrite Hn in H; discriminate].
-      destruct (ginner_spec o inner L L1 E1) as (a1 & Ea1 & A1 & N1 & C1).
-      destruct (IH L1 L' H) as (a2 & Ea2 & A2 & N2 & C2).
-      exists (a1 ++ a2). split; [rewrite Ea2, Ea1, app_assoc; reflexivity|]. split; [|split].
+      destruct (ginner_spec o inner L L1 E1) as (a1 & Ea1 & A1 & N1 & C1 & V1).
+      destruct (IH L1 L' H) as (a2 & Ea2 & A2 & N2 & C2 & V2).
+      exists (a1 ++ a2). split; [rewrite Ea2, Ea1, app_assoc; reflexivity|]. split; [|split; [|split]].
       + intros k v Hin. apply in_app_or in Hin. destruct Hin as [Hin|Hin].
         * destruct (A1 k v Hin) as (H1 & H2 & H3). split; [exact H1|]. exists o. split; [left; reflexivity|]. split; assumption.
         * destruct (A2 k v Hin) as (H1 & o' & H2 & H3). split; [exact H1|]. exists o'. split; [right; exact H2|exact H3].
       + intros Hnd. apply N2, N1, Hnd.
       + intros o' k [<-|Ho] Hk Ht; [|apply (C2 o' k Ho Hk Ht)].
         pose proof (C1 k Hk Ht) as Hin. rewrite Ea2, map_app. apply in_or_app. left. exact Hin.
+      + intros o' k [<-|Ho] Hk Hn; [|apply (V2 o' k Ho Hk Hn)].
+        apply (V1 k Hk). intros Hin. apply Hn. rewrite Ea2, map_app. apply in_or_app. left. exact Hin.
   Qed.
 End GSweep.
 
@@ -196,7 +203,9 @@ Section Lab.
 
   Definition closed (LD : LDt) (LP : LPt) : Prop :=
     (forall i j, In i (map fst LD) -> In j sp -> dtest i j = true -> In j (map fst LP)) /\
-    (forall j i, In j (map fst LP) -> In i dl0 -> utest i j = true -> In i (map fst LD)).
+    (forall j i, In j (map fst LP) -> In i dl0 -> utest i j = true -> In i (map fst LD)) /\
+    (* no KeyError: the rows the search read exist *)
+    (forall j i, In j (map fst LP) -> In i dl0 -> ~ In i (map fst LD) -> availd i = true).
 
   Lemma LD0_keys : map fst LD0 = over.
   Proof. unfold LD0. rewrite map_map. simpl. apply map_id. Qed.
@@ -230,12 +239,13 @@ Section Lab.
     fold_left (fun acc j => fold_left (up_scan q quots res j) dl0 acc) (map fst LP1) (Some LD) = Some LD1 ->
     LInv LD1 LP1 /\ (exists aP, LP1 = LP ++ aP) /\ (exists aD, LD1 = LD ++ aD) /\
     (forall i j, In i (map fst LD) -> In j sp -> dtest i j = true -> In j (map fst LP1)) /\
-    (forall j i, In j (map fst LP1) -> In i dl0 -> utest i j = true -> In i (map fst LD1)).
+    (forall j i, In j (map fst LP1) -> In i dl0 -> utest i j = true -> In i (map fst LD1)) /\
+    (forall j i, In j (map fst LP1) -> In i dl0 -> ~ In i (map fst LD1) -> availd i = true).
   Proof.
     intros [(addD & E & Hk) HD HP KP RD RP] H1 H2.
     rewrite down_sweep_g in H1. rewrite up_sweep_g in H2.
-    destruct (gsweep_spec _ _ _ sp (map fst LD) LP LP1 H1) as (aP & EP & AP & NP & CP).
-    destruct (gsweep_spec _ _ _ dl0 (map fst LP1) LD LD1 H2) as (aD & ED & AD & ND & CD).
+    destruct (gsweep_spec _ _ _ sp (map fst LD) LP LP1 H1) as (aP & EP & AP & NP & CP & _).
+    destruct (gsweep_spec _ _ _ dl0 (map fst LP1) LD LD1 H2) as (aD & ED & AD & ND & CD & VD).
     assert (KP1 : forall p, In p (map fst LP1) -> In p sp).
     { intros p Hp. rewrite EP, map_app in Hp. apply in_app_or in Hp. destruct Hp as [Hp|Hp]; [apply KP, Hp|].
       apply in_map_iff in Hp. destruct Hp as ([p0 v] & <- & Hin). apply (AP p0 v Hin). }
@@ -253,8 +263,9 @@ Section Lab.
       apply in_map_iff in Hi. destruct Hi as ([i0 v] & <- & Hin). destruct (AD i0 v Hin) as (Hdl & o & Ho & _ & Ht).
       apply (R_up o i0); [apply RP1, Ho|exact Hdl|exact Ht].
     - exact RP1.
-    - split; [exists aP; exact EP|]. split; [exists aD; exact ED|]. split; [exact CP|].
-      intros j i Hj Hi Ht. apply (CD j i Hj Hi Ht).
+    - split; [exists aP; exact EP|]. split; [exists aD; exact ED|]. split; [exact CP|]. split.
+      + intros j i Hj Hi Ht. apply (CD j i Hj Hi Ht).
+      + intros j i Hj Hi Hn. apply (VD j i Hj Hi Hn).
   Qed.
 
   Lemma app_same_length {X} (l a : list X) : length (l ++ a) = length l -> a = [].
@@ -267,7 +278,7 @@ Section Lab.
     induction fuel as [|f IH]; intros LD LP LD' LP' I H; simpl in H; [discriminate|].
     destruct (fold_left (fun acc i => fold_left (down_scan q quots res i) sp acc) (map fst LD) (Some LP)) as [LP1|] eqn:E1; [|discriminate].
     destruct (fold_left (fun acc j => fold_left (up_scan q quots res j) dl0 acc) (map fst LP1) (Some LD)) as [LD1|] eqn:E2; [|discriminate].
-    destruct (round_spec LD LP LP1 LD1 I E1 E2) as (I1 & (aP & EP) & (aD & ED) & CP & CD).
+    destruct (round_spec LD LP LP1 LD1 I E1 E2) as (I1 & (aP & EP) & (aD & ED) & CP & CD & VD).
     destruct (existsb (fun i => cmem i under) (map fst LD1)) eqn:Ex.
     - injection H as <- <-. split; [exact I1|]. intros Hf. congruence.
     - destruct (Nat.eqb (length LD1 + length LP1) (length LD + length LP)) eqn:En.
@@ -275,7 +286,7 @@ Section Lab.
         apply Nat.eqb_eq in En. rewrite ED, EP, !app_length in En.
         assert (aD = []) by (destruct aD; [reflexivity|simpl in En; lia]).
         assert (aP = []) by (destruct aP; [reflexivity|simpl in En; lia]). subst aD aP. rewrite app_nil_r in ED, EP. subst LD1 LP1.
-        split; assumption.
+        split; [assumption|split; assumption].
       + apply (IH LD1 LP1 LD' LP' I1 H).
   Qed.
 
@@ -297,7 +308,7 @@ Section Lab.
   Lemma closed_complete LD LP : LInv LD LP -> closed LD LP ->
     forall x, Reach x -> match x with inl i => In i (map fst LD) | inr p => In p (map fst LP) end.
   Proof.
-    intros [(addD & E & _) _ _ _ _ _] [C1 C2] x Hx. induction Hx as [i Hi|i p _ IH Hp Ht|p i _ IH Hi Ht].
+    intros [(addD & E & _) _ _ _ _ _] (C1 & C2 & _) x Hx. induction Hx as [i Hi|i p _ IH Hp Ht|p i _ IH Hi Ht].
     - rewrite E, map_app, LD0_keys. apply in_or_app. left. exact Hi.
     - apply (C1 i p IH Hp Ht).
     - apply (C2 p i IH Hi Ht).
@@ -595,7 +606,7 @@ Section Term.
         apply (proj1 Cl' i p IH Hp). rewrite <- Ht. symmetry. apply dtest_same, Hsame; assumption.
       - pose proof (closed_complete _ _ _ _ _ _ _ _ LI Cl _ Hrp) as Hold. cbv beta iota in Hold.
         pose proof (closed_complete _ _ _ _ _ _ _ _ LI Cl _ (R_up _ _ _ _ _ _ p i Hrp Hi Ht)) as Hold2. cbv beta iota in Hold2.
-        apply (proj2 Cl' p i IH Hi). rewrite <- Ht. symmetry. apply utest_same, Hsame; assumption. }
+        apply (proj1 (proj2 Cl') p i IH Hi). rewrite <- Ht. symmetry. apply utest_same, Hsame; assumption. }
     assert (HinD : incl DL DL') by (intros i Hi; apply (Hsup (inl i)), (li_reachD _ _ _ _ _ _ _ _ LI i Hi)).
     assert (HinP : incl PL PL') by (intros p Hp; apply (Hsup (inr p)), (li_reachP _ _ _ _ _ _ _ _ LI p Hp)).
     pose proof (li_ndD _ _ _ _ _ _ _ _ LI) as NdD. pose proof (li_ndP _ _ _ _ _ _ _ _ LI) as NdP.
